@@ -41,8 +41,8 @@ theorem pass1_state {rows : List RRow} {out : List OutEdge} (h : pass1 rows = .o
 theorem good_of_fragment (rows : List CRow) (outE : List OutEdge) (hf : inFragment rows = true)
     (hp : pass1 (rows.map toRRow) = .ok outE) : (∀ c ∈ rows, rowOk c = true) ∧ Good rows outE := by
   simp only [inFragment, Bool.and_eq_true, List.all_eq_true, hp] at hf
-  obtain ⟨h1, ⟨h2, h3⟩, h4⟩ := hf
-  refine ⟨h1, ⟨h2, ?_, ?_⟩⟩
+  obtain ⟨h1, ⟨⟨h2, h3⟩, h4⟩, h5⟩ := hf
+  refine ⟨h1, ⟨h2, ?_, ?_, ?_⟩⟩
   · intro j c hc hk
     have hj : j < rows.length := (List.getElem?_eq_some_iff.mp hc).1
     simp only [distinctTests, List.all_eq_true, List.mem_range] at h3
@@ -69,6 +69,21 @@ theorem good_of_fragment (rows : List CRow) (outE : List OutEdge) (hf : inFragme
           (fun e => decide (e.cond.var = implVar (outE.filter (·.src = j))))) = true := this
     simp only [hk, decide_true, Bool.not_true, Bool.false_or, List.all_eq_true, decide_eq_true_eq] at this2
     exact this2 e he
+  · intro j c hc hk
+    have hj : j < rows.length := (List.getElem?_eq_some_iff.mp hc).1
+    simp only [freshNames, List.all_eq_true, List.mem_range] at h5
+    have := h5 j hj
+    rw [hc] at this
+    have hmem : (switchTypes.contains c.row.type || decide (kindOf c.row.type = .action)) = true := by
+      rcases hk with hk | hk
+      · have : c.row.type ∈ switchTypes := by
+          rcases switch_type_of_kind hk with h | h | h <;> rw [h] <;> decide
+        rw [List.contains_iff_mem.mpr this]; rfl
+      · rw [decide_eq_true hk, Bool.or_true]
+    have this2 : (!(switchTypes.contains c.row.type || decide (kindOf c.row.type = .action)) ||
+        namesOk (kindOf c.row.type) (timeoutOf c.row) [] (testsOf (kindOf c.row.type) (outE.filter (·.src = j)))) = true := this
+    rw [hmem] at this2
+    simpa using this2
 
 theorem forall2_map_eq {α β γ} {R : α → β → Prop} {f : α → γ} {g : β → γ} {l1 : List α} {l2 : List β}
     (h : List.Forall₂ R l1 l2) (hfg : ∀ a b, R a b → f a = g b) : l1.map f = l2.map g := by
